@@ -76,6 +76,18 @@ CLAIMS = {
              'proved by Verus on the real bodies; get_empty_leaves_indices == ascending unset positions below the mark (Kani, bounded).',
         note='get_empty_leaves_indices iterator chain assumed in Verus and Kani-checked on the compiled code for all three backends (bounded: capacity 4 / 8). Known finding: PmTree::new zeroes the flags when it reopens an existing database (clauses reopen-*).',
         design='DESIGN.md §4 C15'),
+    'C16': dict(
+        text='PARTIAL, function level: (1) the storage adapter utils::pm_tree::SledDB (put, put_batch, get, close, load, new / new_with_tries) is checked by Kani as compiled '
+             'against an engine stand-in with a SYMBOLIC fault plan: an engine write / flush / read / open failure is always an Err, Ok is returned only when exactly the given '
+             'key and value reached the engine / the engine was flushed, load succeeds exactly on an existing database; (2) the persistent-tree adapter PmTree is verified by Verus: '
+             'no mutator acknowledges (Ok) unless the tree dependency acknowledged and the stated leaf / mark effect happened (a swallowed storage error fails the postcondition), '
+             'set_metadata stores before it caches and changes nothing on failure, metadata() returns what the database holds, close_db_connection is Ok iff the flush succeeded, '
+             'PmTree::new on an existing database yields a well-formed adapter (reopen-is-wf).',
+        note='NOT decided (no contract within reach): durability of sled itself (what survives a crash or a failed flush), the internals of the external pmtree crate (which keys it writes, '
+             'its load path), every-history equality of root / leaves across a real close + reopen, PmtreeConfig JSON parsing (serde_json). Assumed: the engine stand-in kani/stubs/sled '
+             '(fault plan, atomic batch), the pmtree contract of unit pm_adapter (Err of an in-range mutator = storage failure), SledDB as seen by the adapter (meta_s / flushed_s). '
+             'put_batch is bounded (batches of 0 / 1 entries, std HashMap); new_with_tries is case-split over the number of lock conflicts. Known finding: reopen-restores-written-flags is C15.',
+        design='DESIGN.md §4 C16'),
     'C19': dict(
         text='Operator helpers are loop-free / width-bounded: Kani harnesses over full-domain operands are complete proofs of circom semantics, canonical results and no panic.',
         note='Fr helpers run over a canonical-integer model of Fr extracted mechanically each run; mul/inv/pow of ruint and ark-ff are trusted.',
@@ -91,7 +103,6 @@ NOT_APPLICABLE = {
     'C01': 'End-to-end Groth16 completeness over the bundled 13 MB key and witness graph is a fact about data and pairing arithmetic; no function contract within reach of Verus/Kani states it (function-level pieces are decided under C02/C04/C07/C10).',
     'C05': 'The oracle is an external reference generator (rln.wasm) applied to an 11 940-line data file, not a contract on a function of /repo; determinism/order-independence are decided for every graph under C20.',
     'C11': 'macro_rules!-generated unsafe raw-pointer FFI glue and a lock-step relation between two API surfaces over call histories: relational two-run property, raw-pointer ownership outside Verus without rewriting, Kani contracts need Arbitrary for *mut RLN.',
-    'C16': 'Needs the semantics of sled (flush, recovery) and failure injection at the storage boundary: behaviour of an external crate over crash points, not expressible as contracts over /repo functions.',
     'C17': 'Equality of two parsed key files through two deserialisers and acceptance across separately built feature sets are properties of data files and of several builds, not of one function; the tree half is the C06/C07 corollary.',
     'C18': 'Thread schedules: Kani has no thread support and Verus would require re-expressing rayon/Lazy/sled in its permission types, i.e. a different program.',
 }
